@@ -397,6 +397,12 @@ func (x *Exec) callWith(f *frame, in ssa.Instruction, c *ssa.CallCommon, args []
 		fvs = fnVal.Cl.Bindings
 	}
 	if callee == nil {
+		if ld, ok := c.Value.(*ssa.UnOp); ok {
+			if g, ok := ld.X.(*ssa.Global); ok {
+				// call through a package-level function variable: the site is named after the variable
+				x.siteAssertions(st, in, g.Name(), args)
+			}
+		}
 		if v, ok := x.externFuncValue(f, in, c, args); ok {
 			return v
 		}
